@@ -56,6 +56,7 @@ structure DB where
   apps : List Bytes
   inbox : List InRow
   outbox : List OutRow
+  nonces : List (Bytes × Nat) := []     -- table lora_device_nonces, primary key (device EUI, nonce)
   deriving Repr, Inhabited
 
 structure FobEntry where
@@ -155,6 +156,8 @@ structure Sys where
       strict counter checking, and the devices whose uplink-counter epoch has ended. -/
   recordedUp : List (Bytes × Nat) := []
   resetsUp : List Bytes := []
+  /-- …and for joins: (device, DevNonce) of every key change made while the nonce check is on. -/
+  keyedJoins : List (Bytes × Nat) := []
   deriving Repr, Inhabited
 
 def Sys.init (db : DB) : Sys := { db := db, fob := [], scheduled := [], threads := [], emitted := [], published := [], now := 1 }
@@ -168,7 +171,12 @@ def noteCounter (l : List (Bytes × Nat)) (e : Bytes) (f : Nat) : List (Bytes ×
 /-! ### storage operations (storage/device.go, messages.go, application.go) -/
 
 def DB.byAddr (db : DB) (addr : Nat) : List Device := db.devices.filter (·.devAddr == addr)
-def DB.byEUI (db : DB) (eui : Bytes) : Option Device := db.devices.find? (·.eui == eui)
+/-- The device row with that EUI. -/
+def DB.rowByEUI (db : DB) (eui : Bytes) : Option Device := db.devices.find? (·.eui == eui)
+/-- The DevNonce history of a device: its rows in the nonce table. -/
+def DB.noncesOf (db : DB) (eui : Bytes) : List Nat := (db.nonces.filter (fun x => x.1 == eui)).map (·.2)
+/-- `GetDeviceByEUI`: the device row together with its DevNonce history. -/
+def DB.byEUI (db : DB) (eui : Bytes) : Option Device := (db.rowByEUI eui).map (fun d => { d with nonces := db.noncesOf eui })
 
 /-- `UpdateDeviceState`: fcnt_dn, fcnt_up, key_warning of the row with that EUI; NotFound if none. -/
 def DB.updateState (db : DB) (d : Device) : Option DB :=
@@ -187,7 +195,7 @@ def DB.advanceFCntUp (db : DB) (eui : Bytes) (fcnt : Nat) (kw : Bool) : Option D
 /-- `NextFCntDn(eui)`: in one transaction under the storage mutex, read the downlink counter of the
     device, store counter+1 (16 bit), return the value read; NotFound if there is no such device. -/
 def DB.nextFCntDn (db : DB) (eui : Bytes) : Option (DB × Nat) :=
-  match db.byEUI eui with
+  match db.rowByEUI eui with
   | none => none
   | some d => some ({ db with devices := db.devices.map (fun x => if x.eui == eui then { x with fcntDn := (d.fcntDn + 1) % 65536 } else x) }, d.fcntDn)
 
@@ -199,12 +207,10 @@ def DB.updateDevice (db : DB) (d : Device) : Option DB :=
                fcntUp := d.fcntUp, fcntDn := d.fcntDn, relaxed := d.relaxed, keyWarning := d.keyWarning } else x) }
   else none
 
-/-- `AddDevNonce`: primary key (device, nonce). -/
+/-- `AddDevNonce`: one INSERT into the nonce table, primary key (device, nonce); there is no foreign
+    key to the device table. -/
 def DB.addNonce (db : DB) (eui : Bytes) (n : Nat) : Option DB :=
-  match db.byEUI eui with
-  | some d => if d.nonces.contains n then none
-              else some { db with devices := db.devices.map (fun x => if x.eui == eui then { x with nonces := x.nonces ++ [n] } else x) }
-  | none => some db   -- no foreign key enforcement: the row is inserted even without a device (not observable)
+  if db.nonces.contains (eui, n) then none else some { db with nonces := db.nonces ++ [(eui, n)] }
 
 /-- `CreateUpstreamMessage`: primary key (device, time stamp). -/
 def DB.addInbox (db : DB) (r : InRow) : Option DB :=
@@ -445,7 +451,8 @@ def stepJoin (E : BlockFn) (cfg : Config) (sys : Sys) (s : JoinSt) (fault : Bool
     if fault then (sys, [.done])
     else match sys.db.updateDevice d with
       | some db => ({ sys with db := db, acceptedUp := forget sys.acceptedUp d.eui, issuedDn := forget sys.issuedDn d.eui,
-                                resetsDn := d.eui :: sys.resetsDn, resetsUp := d.eui :: sys.resetsUp },
+                                resetsDn := d.eui :: sys.resetsDn, resetsUp := d.eui :: sys.resetsUp,
+                                keyedJoins := if cfg.nonceCheckOff then sys.keyedJoins else sys.keyedJoins ++ [(d.eui, jr.devNonce)] },
                     [.join { s with pc := 5, dev := d }])
       | none => (sys, [.done])
   | 5 =>
